@@ -71,7 +71,83 @@ def rule_cbordec(body, I, M):
     return dict(corr_ok=corr_ok, prop_ok=prop_ok, nontrivial=(iok and "," in i) or (not iok and len(body) > 14),
                 bucket=i.rsplit("/", 1)[-1], why=why)
 
-RULES = {"default": rule_default, "cborenc": rule_cborenc, "cbordec": rule_cbordec}
+def _toks(x):
+    return (x or "").rsplit("/", 2)
+
+def rule_jsondec(body, I, M):
+    """C05: tokens/rest/outcome vs the model (exact), vs the Lean reference parser (S) and vs encoding/json (O)."""
+    i, m, s = I.get("I", ""), M.get("M", ""), M.get("S", "")
+    if _bad_impl(i):
+        return dict(corr_ok=False, prop_ok=False, nontrivial=True, bucket="crash", why="implementation " + i)
+    corr_ok = (i == m) and I.get("n") == M.get("n")
+    iok = i.endswith("/ok")
+    why = ""
+    if s == "E":
+        prop_ok = not iok and not i.endswith("/panic") and not i.endswith("/loop")
+        if not prop_ok:
+            why = "accepted (or panicked/looped on) a text the reference reader rejects: " + i
+    else:
+        it, st = _toks(i), _toks(s)
+        pb = int(M.get("pb", "0") or 0)
+        prop_ok = iok and it[0] == st[0] and int(it[1]) + pb == int(st[1])
+        if not prop_ok:
+            why = "valid JSON read as %s, reference says %s" % (i, s)
+    o = I.get("O", "ok")
+    if o != "ok":
+        prop_ok = False
+        why = "encoding/json oracle: " + o
+    if not corr_ok and not why:
+        why = "implementation and model differ"
+    return dict(corr_ok=corr_ok, prop_ok=prop_ok, nontrivial=(iok and "," in i) or (not iok and len(body) > 12),
+                bucket=i.rsplit("/", 1)[-1], why=why)
+
+def rule_jsonenc(body, I, M):
+    """C03: flags, write calls, decoder round trip vs model; output validity/value/pretty vs oracle; round trip vs retype."""
+    i = I.get("I", "")
+    if _bad_impl(i):
+        return dict(corr_ok=False, prop_ok=False, nontrivial=True, bucket="crash", why="implementation " + i)
+    corr_ok = (i == M.get("M")) and I.get("W") == M.get("W") and I.get("R") == M.get("R")
+    prop_ok, why = True, ""
+    o = I.get("O", "ok")
+    if o != "ok":
+        prop_ok, why = False, "oracle: " + o
+    elif "SR" in M:
+        n = len(body.split(" ")[3].split(","))
+        if i != "." * (n - 1) + "D":
+            prop_ok, why = False, "well-formed sequence not accepted with done on the last token: " + i
+        elif _toks(I.get("R"))[0::2] != _toks(M.get("SR"))[0::2]:
+            # (the rest after the item is only the trailing Line whitespace; validity of the whole output is the oracle's job)
+            prop_ok, why = False, "decoding the output does not give back the tokens (up to number typing): %s vs %s" % (I.get("R"), M.get("SR"))
+        elif _strip_ws_hex((I.get("W") or "").replace("|", "")) != (M.get("SC") or "").replace("-", ""):
+            prop_ok, why = False, "pretty output differs from the compact output in more than whitespace"
+    if not corr_ok and not why:
+        why = "implementation and model differ"
+    return dict(corr_ok=corr_ok, prop_ok=prop_ok, nontrivial=("SR" in M), bucket=("wf" if "SR" in M else "other"), why=why)
+
+def _strip_ws_hex(hx):
+    b = bytes.fromhex(hx.replace("-", ""))
+    out = bytearray()
+    ins = esc = False
+    for c in b:
+        if ins:
+            out.append(c)
+            if esc:
+                esc = False
+            elif c == 0x5c:
+                esc = True
+            elif c == 0x22:
+                ins = False
+            continue
+        if c == 0x22:
+            ins = True
+            out.append(c)
+        elif c in (0x20, 0x09, 0x0d, 0x0a):
+            continue
+        else:
+            out.append(c)
+    return out.hex()
+
+RULES = {"default": rule_default, "jsondec": rule_jsondec, "jsonenc": rule_jsonenc, "cborenc": rule_cborenc, "cbordec": rule_cbordec}
 
 PROPS = {}
 
@@ -92,10 +168,15 @@ PROPS["C14"] = dict(
 PROPS["C02"] = dict(
     level="proof",
     lean_module="RefmtProofs.Props.C02",
-    theorems=[],
+    theorems=["Refmt.C02.emitHead_eq_head", "Refmt.C02.head_valid", "Refmt.C02.head_shortest", "Refmt.C02.enc_eq_spec",
+              "Refmt.C02.roundtrip_norm", "Refmt.C02.roundtrip_partial"],
     streams=[dict(name="cborenc", gen="cborenc", rule="cborenc")],
     title="CBOR encoding is lossless and shortest-form",
-    claim="(work in progress)",
+    claim="Theorems (all token trees, any size/nesting): the encoder model accepts flatten v with done exactly on the last token and "
+          "writes exactly the RFC 7049 encoding Spec.Cbor.enc v; emitted heads equal the spec head for every argument < 2^64 and no "
+          "legal head is shorter; decoding enc v ++ rest with the decoder model returns the tokens (non-negative ints unsigned, "
+          "indefinite lengths as -1), done on the last token, leaving exactly rest. Tie: token streams through the real encoder "
+          "and decoder, write-call granularity included.",
     rule_text="token sequences for the CBOR encoder: every head-size boundary in every position, all values below 2^16 (quick) / 2^22 "
               "(thorough), string lengths across head boundaries, sampled float bit patterns, tags across head sizes, deep nesting, "
               "random well-formed trees; non-trivial = well-formed input (spec encoding available); distinct by case text",
@@ -111,4 +192,29 @@ PROPS["C04"] = dict(
               "structurally significant alphabet, all 65536 half floats, sampled singles, every head boundary in every width, "
               "grammar-generated items in random legal spellings with trailing bytes, every proper prefix, single-edit mutants, adversarial "
               "length headers, deep nesting; non-trivial = multi-token item or a rejected input longer than one byte",
+)
+
+PROPS["C03"] = dict(
+    level="proof",
+    lean_module="RefmtProofs.Props.C03",
+    theorems=[],
+    streams=[dict(name="jsonenc", gen="jsonenc", rule="jsonenc")],
+    title="JSON encoding is lossless and always valid JSON",
+    claim="(work in progress)",
+    rule_text="token sequences for the JSON encoder: every code point below U+3000 and a stride above (all in thorough), all two-byte "
+              "strings, raw bytes, surrogate forms; int/uint boundaries; floats at the formatting switch points, integral floats, "
+              "subnormals, max, random; all nesting shapes up to 5 (6) tokens under 4 option settings; random trees with random "
+              "Line/Indent; non-trivial = well-formed input; output checked by encoding/json and by the Lean reference",
+)
+PROPS["C05"] = dict(
+    level="proof",
+    lean_module="RefmtProofs.Props.C05",
+    theorems=[],
+    streams=[dict(name="jsondec", gen="jsondec", rule="jsondec")],
+    title="JSON decoder agrees with RFC 8259",
+    claim="(work in progress)",
+    rule_text="texts for the JSON decoder: all strings of <= 3 (4) chars over the 45-symbol JSON alphabet and <= 4 (5) over a 23-symbol one, "
+              "literal corruptions, numbers at every range boundary with every follower, all \\uXXXX (stride in quick), surrogate pairs, "
+              "raw bytes, grammar-generated documents with random whitespace and trailing commas, trailing data, every proper prefix, "
+              "single-edit mutants, deep nesting; checked against encoding/json and the Lean reference reader",
 )
